@@ -82,6 +82,10 @@ def jobs(tier):
     # (act_spec), so the real times_group_element entry points must equal it (owned by C02)
     from .common import dep_jobs
     out += dep_jobs("gvc.props.c02", lambda fn, kw: fn in ("ob_array", "ob_entry") and kw["D"] >= 2)
+    # toroidal images NARROWER than the reach of the dilated filter: the covariance / translation obligations above carry the
+    # pre-condition extent >= reach (single wrap); below it the statement is covered through the definition -- the real
+    # convolution equals the periodic direct sum (owned by C04), of which translation covariance is a re-indexing
+    out += dep_jobs("gvc.props.c04", lambda fn, kw: fn == "ob_convolve" and kw.get("tag") == "narrow-torus", tier)
     return out
 
 
